@@ -1,5 +1,5 @@
 (* C03 -- no input makes any parsing entry point panic, hang or block. *)
-From MH Require Import proofs.Total_proofs.
+From MH Require Import proofs.Total_proofs proofs.RunConn_proofs.
 
 (* The models of Request::try_from and of HttpConnection carry an explicit Panic outcome at
    every slice/index expression, unwrap, drain(..n) and unchecked subtraction of the Rust code
@@ -40,13 +40,26 @@ Proof. exact try_write_offer. Qed.
 
 Example C03_ex_after_errors :
   any_panic 1024 (new_conn 51200)
-    [CRead (RData (B"BAD" ++ CRLF) []); CRead (RFail 11); CRead (REof []); CWrite (WWrote 3);
-     CEnqueue (response_new Http11 OK); CWrite WFail; CRead (RData (B"GET / HTTP/1.1" ++ CRLF ++ CRLF) [1%nat]); CPop; CSetMax 0]
+    [Total_proofs.CRead (RData (B"BAD" ++ CRLF) []); Total_proofs.CRead (RFail 11); Total_proofs.CRead (REof []); Total_proofs.CWrite (WWrote 3);
+     Total_proofs.CEnqueue (response_new Http11 OK); Total_proofs.CWrite WFail; Total_proofs.CRead (RData (B"GET / HTTP/1.1" ++ CRLF ++ CRLF) [1%nat]); Total_proofs.CPop; Total_proofs.CSetMax 0]
   = false.
 Proof. vm_compute. reflexivity. Qed.
+
+(* over executed histories: the connection interpreter of run/Run.v (domain 6 of the correspondence run: a scripted
+   stream with reads of any size, end of stream, failing reads, short / interrupted / failing writes, enqueues,
+   clears, limit changes) never leaves the connection invariant after ANY list of operations, so C03_call_total
+   applies to every call it makes; the results it feeds to try_read are within the recvmsg contract (at most
+   `room` bytes) by construction (take_step_KI) *)
+Theorem C03_executed_conn_keeps_inv : forall BUF, (2 <= BUF)%nat -> N.of_nat BUF < U32_LIMIT ->
+  forall ops id L stream, KI BUF (run_conn_state BUF id 0 (mkCst (set_payload_max_size conn_new L) stream 0) ops).
+Proof. exact executed_conn_from_new. Qed.
+Check ((fun BUF k => eq_refl) : forall BUF k, KI BUF k = exists ph, CInv BUF (k_conn k) ph).
+Check ((fun BUF id i k op r => eq_refl) : forall BUF id i k op r,
+  run_conn_state BUF id i k (op :: r) = run_conn_state BUF id (S i) (fst (run_conn_op BUF id i k op)) r).
 
 Print Assumptions C03_oneshot_total.
 Print Assumptions C03_call_total.
 Print Assumptions C03_conn_total.
 Print Assumptions C03_new_conn_inv.
 Print Assumptions C03_one_write.
+Print Assumptions C03_executed_conn_keeps_inv.
